@@ -121,4 +121,16 @@ PROPS = {
         "guards": ["acked-before-crash", "inflight-at-crash", "redelivery-checked"],
         "parts": [{"engine": "front", "test": "TestProp_C01_ProcessCrash", "quick": 64, "thorough": 4000, "shards": {"quick": 8}, "needs_bins": ["hookaido"], "shrinktime": "60s"}],
     },
+    "C03": {
+        "rule": "concurrent tier: 2-16 consumers of three kinds (direct Store, Pull HTTP handler, Worker gRPC methods) plus an operator run generated "
+                "per-phase scripts (dequeue b, ack, nack, extend, forget, cancel/requeue) against one memory or SQLite store; the fake clock is constant "
+                "inside a phase and advances (possibly across lease boundaries) only at the barrier; every call is logged with invocation/response "
+                "sequence numbers; history oracle: lease ids globally unique, a message's grants carry attempts exactly 1..k, grant k+1 only after grant "
+                "k ended (release invoked before k+1 returned, operator cancel, or the phase clock >= lease_until), never twice in one response; "
+                "non-trivial = some message granted >=2 times and >=2 workers' dequeues overlapped in real time",
+        "assumptions": ["the Go scheduler is not controlled: interleavings are sampled (GOMAXPROCS varied per shard; -race build in the thorough tier); a schedule-dependent "
+                        "failure cannot be shrunk by rapid, the history is printed by the harness", "the live PushDispatcher is exercised under C07's push leg, not here"],
+        "guards": ["message-granted-twice", "dequeues-overlapped"],
+        "parts": [{"engine": "front", "test": "TestProp_C03_Concurrent", "quick": 800, "thorough": 60000, "shards": {"quick": 4}, "gomaxprocs": [16, 2, 4, 1], "shrinktime": "5s"}],
+    },
 }
